@@ -37,7 +37,7 @@ func init() {
 		Setup: func(c *core.Ctx) { geom.VerifSimplifyHook = hook },
 		Floors: func(t string) map[string]int64 {
 			return map[string]int64{"len.0": 20, "len.1": 20, "len.2": 20, "len.3": 20, "simple_input.judged": 3000, "dropped_vertices.checked": 10000, "shape.hook": 500, "shape.spiral": 500,
-				"tol.zero": 500, "tol.inf": 500, "storage.members_share_one_backing_array": 1000, "revisit.judged": 500, "boxwalk.simple_judged": 50000, "boxwalk.tail_returns_into_pocket": 15000, "boxwalk.vertices_dropped": 25000, "multi.members_independent": 500, "polygon.rings": 500, "hook.steps_seen": 10000}
+				"tol.zero": 500, "tol.inf": 500, "storage.members_share_one_backing_array": 1000, "polygon.rings_unclosed": 500, "revisit.judged": 500, "boxwalk.simple_judged": 50000, "boxwalk.tail_returns_into_pocket": 15000, "boxwalk.vertices_dropped": 25000, "multi.members_independent": 500, "polygon.rings": 500, "hook.steps_seen": 10000}
 		},
 	})
 }
@@ -581,6 +581,11 @@ func run(c *core.Ctx, idx int) {
 	// polygon rings (closed): termination, subsequence/endpoints, tolerance
 	if n >= 3 && r.Chance(0.25) {
 		ring := append(append(geom.Path{}, curve...), curve[0])
+		unclosed := r.Chance(0.4)
+		if unclosed {
+			ring = ring[: len(ring)-1 : len(ring)-1] // the spelling without the repeated first vertex
+			c.Count("polygon.rings_unclosed")
+		}
 		pg := geom.Polygon{ring}
 		var polyIn geom.Geom = pg
 		isMulti := r.Bool()
@@ -646,7 +651,11 @@ func run(c *core.Ctx, idx int) {
 		}
 		d2["output"] = gen.Dump(got)
 		// a closed ring repeats its first vertex at the end: match as a sequence with that duplicate allowed
-		judgeRing(c, ring, outRing, tol, d2)
+		if unclosed {
+			judge(c, ring, outRing, tol, shape, "unclosed-ring", false, d2)
+		} else {
+			judgeRing(c, ring, outRing, tol, d2)
+		}
 	}
 }
 
